@@ -581,6 +581,11 @@ class DocumentSetPreparator:
     def has_expected_size(self, file_name, expected_size):
         return expected_size is None or os.path.getsize(file_name) == expected_size
 
+    def invalidate_file_offset_table(self, document_file_path):
+        # the data file has just been (re)created: an existing offset table belongs to its predecessor
+        if os.path.exists(f"{document_file_path}.offset"):
+            io.remove_file_offset_table(document_file_path)
+
     def create_file_offset_table(self, document_file_path, expected_number_of_lines):
         # just rebuild the file every time for the time being. Later on, we might check the data file fingerprint to avoid it
         lines_read = io.prepare_file_offset_table(document_file_path)
@@ -618,6 +623,7 @@ class DocumentSetPreparator:
                 and self.has_expected_size(archive_path, document_set.compressed_size_in_bytes)
             ):
                 self.decompressor.decompress(archive_path, doc_path, document_set.uncompressed_size_in_bytes)
+                self.invalidate_file_offset_table(doc_path)
             else:
                 if document_set.has_compressed_corpus():
                     target_path = archive_path
@@ -631,6 +637,7 @@ class DocumentSetPreparator:
 
                 try:
                     self.downloader.download(document_set.base_url, target_path, expected_size)
+                    self.invalidate_file_offset_table(doc_path)
                 except exceptions.DataError as e:
                     if e.message == "Cannot download data because no base URL is provided." and self.is_locally_available(target_path):
                         raise exceptions.DataError(
@@ -678,6 +685,7 @@ class DocumentSetPreparator:
             if document_set.has_compressed_corpus() and self.is_locally_available(archive_path):
                 if self.has_expected_size(archive_path, document_set.compressed_size_in_bytes):
                     self.decompressor.decompress(archive_path, doc_path, document_set.uncompressed_size_in_bytes)
+                    self.invalidate_file_offset_table(doc_path)
                 else:
                     # treat this is an error because if the file is present but the size does not match, something is
                     # really fishy. It is likely that the user is currently creating a new track and did not specify
